@@ -1,13 +1,14 @@
 #!/usr/bin/env python3
 """Confirm a seeded change and run the registered checks against it.
 
-usage: seedcheck.py <seed-dir containing patch.diff + demo.py> <name e.g. C16a> <property id> [check ids...]
+usage: seedcheck.py <seed-dir containing patch.diff + demo.py [+ notes.md]> <name e.g. C16a> <property id> [check ids...]
  1. scratch worktree of /repo HEAD under /tmp/sc; demo must pass there
  2. apply patch.diff (git apply, falling back to --3way / patch --fuzz); pinned suite must still give 193 passed; demo must fail
- 3. apply the patch to /repo itself, run ./check <id> --tier quick for each id, undo (git checkout -- .)
- 4. write /verif/seeded/<name>/{patch.diff,demo.py,notes.md,meta.json}
+ 3. run ./check <id> --tier quick for each id with VERIF_REPO=<the patched worktree> and VERIF_OUT=/tmp/sc/out_<name>
+    (so /repo and /verif/evidence are not touched; several seedchecks may run side by side)
+ 4. write /verif/seeded/<name>/{patch.diff,demo.py,notes.md,meta.json}; remove the worktree
 """
-import json, os, re, shutil, subprocess, sys, time
+import json, os, shutil, subprocess, sys, time
 
 def sh(cmd, cwd=None, env=None, timeout=3600):
     e = dict(os.environ); e.update(env or {})
@@ -24,60 +25,64 @@ def apply(patch, tree):
 
 def main():
     seed, name, pid = sys.argv[1:4]
+    seed = os.path.abspath(seed)
     checks = sys.argv[4:] or [pid]
     wt = "/tmp/sc/" + name
+    outdir = "/tmp/sc/out_" + name
     sh("git -C /repo worktree remove --force %s" % wt)
+    shutil.rmtree(outdir, ignore_errors=True)
     os.makedirs("/tmp/sc", exist_ok=True)
     rc, out = sh("git -C /repo worktree add -q --detach %s HEAD" % wt)
     assert rc == 0, out
     meta = {"name": name, "property": pid, "base_commit": sh("git -C /repo rev-parse --short HEAD")[1].strip(), "when": time.strftime("%Y-%m-%d %H:%M")}
+    res = {}
     try:
         env = {"PYTHONPATH": wt + "/src"}
-        rc0, out0 = sh("/venv/bin/python %s/demo.py" % seed, cwd=wt, env=env, timeout=600)
+        rc0, out0 = sh("/venv/bin/python %s/demo.py" % seed, cwd=wt, env=env, timeout=900)
         meta["demo_clean_exit"] = rc0
-        how = apply(os.path.abspath(seed + "/patch.diff"), wt)
+        if rc0 != 0:
+            meta["demo_clean_tail"] = out0[-400:]
+        how = apply(seed + "/patch.diff", wt)
         meta["applied_with"] = how
         if not how:
             meta["status"] = "patch does not apply on current HEAD"
             print(json.dumps(meta, indent=1)); return 1
         rc, out = sh("/venv/bin/python -m pytest -q -p no:cacheprovider --timeout=900 --continue-on-collection-errors 2>&1 | tail -1", cwd=wt, env=env)
         meta["suite_with_patch"] = out.strip()
-        rc1, out1 = sh("/venv/bin/python %s/demo.py" % seed, cwd=wt, env=env, timeout=600)
+        rc1, out1 = sh("/venv/bin/python %s/demo.py" % seed, cwd=wt, env=env, timeout=900)
         meta["demo_patched_exit"] = rc1
         meta["demo_patched_tail"] = out1[-300:]
         sh("git diff > /tmp/sc/%s.diff" % name, cwd=wt)
+        sh("find . -name __pycache__ -prune -exec rm -rf {} +", cwd=wt)
         ok = rc0 == 0 and rc1 != 0 and "193 passed" in out
         meta["confirmed"] = ok
-    finally:
-        sh("git -C /repo worktree remove --force %s" % wt)
-    if not meta.get("confirmed"):
-        meta["status"] = "not confirmed"
-        print(json.dumps(meta, indent=1)); return 1
-    # run the checks against it, in /repo itself
-    assert sh("git -C /repo status --porcelain")[1].strip() == "", "/repo not clean"
-    res = {}
-    try:
-        rc, out = sh("git apply /tmp/sc/%s.diff" % name, cwd="/repo")
-        assert rc == 0, out
+        if not ok:
+            meta["status"] = "not confirmed"
+            print(json.dumps(meta, indent=1)); return 1
         for c in checks:
             t0 = time.time()
-            rc, out = sh("./check %s --tier quick" % c, cwd="/verif", timeout=3000)
-            lines = [l for l in out.splitlines() if l.startswith(("VIOLATION", "PASS", "FAIL", "MACHINERY", "KNOWN"))]
+            rc, out = sh("./check %s --tier quick" % c, cwd="/verif", env={"VERIF_REPO": wt, "VERIF_OUT": outdir}, timeout=6000)
+            lines = [l[:400] for l in out.splitlines() if l.startswith(("VIOLATION", "PASS", "FAIL", "MACHINERY", "KNOWN"))]
             res[c] = {"exit": rc, "detected": rc == 1, "wall_s": round(time.time() - t0), "lines": lines[:6]}
+            if rc == 2:
+                res[c]["tail"] = out[-1500:]
     finally:
-        sh("git checkout -- . && git clean -fdq src", cwd="/repo")
+        sh("git -C /repo worktree remove --force %s" % wt)
+        shutil.rmtree(outdir, ignore_errors=True)
     meta["checks"] = res
     meta["detected_by"] = [c for c in res if res[c]["detected"]]
     dst = "/verif/seeded/" + name
     os.makedirs(dst, exist_ok=True)
     shutil.copy("/tmp/sc/%s.diff" % name, dst + "/patch.diff")
-    shutil.copy(seed + "/demo.py", dst + "/demo.py")
-    if os.path.exists(seed + "/notes.md"):
-        shutil.copy(seed + "/notes.md", dst + "/notes.md")
-    notes = open(seed + "/notes.md").read() if os.path.exists(seed + "/notes.md") else ""
+    os.remove("/tmp/sc/%s.diff" % name)
+    if os.path.abspath(dst) != seed:
+        shutil.copy(seed + "/demo.py", dst + "/demo.py")
+        if os.path.exists(seed + "/notes.md"):
+            shutil.copy(seed + "/notes.md", dst + "/notes.md")
+    notes = open(dst + "/notes.md").read() if os.path.exists(dst + "/notes.md") else ""
     meta["needs_to_manifest"] = notes[:1200]
     meta["ran"] = ["demo.py on clean worktree (exit %d)" % rc0, "pinned suite with patch: " + meta["suite_with_patch"],
-                   "demo.py with patch (exit %d)" % rc1] + ["./check %s --tier quick with patch applied to /repo -> exit %d" % (c, res[c]["exit"]) for c in res]
+                   "demo.py with patch (exit %d)" % rc1] + ["./check %s --tier quick against the patched worktree (VERIF_REPO) -> exit %d" % (c, res[c]["exit"]) for c in res]
     json.dump(meta, open(dst + "/meta.json", "w"), indent=1)
     print(name, "confirmed; detected by", meta["detected_by"], {c: res[c]["lines"][:2] for c in res})
     return 0
